@@ -76,6 +76,30 @@ def under_resolved_probe(ctx):
                       signature='C02-under-resolved-at-final-step')
 
 
+def tiny_log1p_argument(tree, x):
+    """an argument of log1p with magnitude below 1e-3: numpy's *complex* log1p (what the user function calls under
+    method='complex') computes log(hypot(1 + re, im)) and keeps only absolute accuracy there — a limitation of numpy, outside the
+    library (Bicomplex.log1p, the multicomplex path, has its own accurate version since 1ff91f9)"""
+    smallest = [float('inf')]
+
+    def walk(node):
+        if not isinstance(node, Node):
+            return node
+        if node.op == 'x':
+            return x
+        if node.op == 'const':
+            return node.const
+        a = [walk(c) for c in node.args]
+        if node.op == 'log1p' and a:
+            smallest[0] = min(smallest[0], abs(float(a[0])))
+        return float(Node(node.op, tuple(Node('const', const=float(t)) for t in a), node.const)(x))
+    try:
+        walk(tree)
+    except Exception:
+        return True
+    return smallest[0] < 1e-3
+
+
 def derivative_search(ctx, budget, honesty):
     import numdifftools as nd
     from numdifftools.step_generators import MinStepGenerator, MaxStepGenerator
@@ -95,6 +119,8 @@ def derivative_search(ctx, budget, honesty):
         order = rng.randint(1, 8)
         tree, x, d = gen_program(rng, 8)
         if m == 'multicomplex' and (big_hyperbolic_argument(tree, x)):
+            continue
+        if m == 'complex' and tiny_log1p_argument(tree, x):
             continue
         inv_trig = m == 'multicomplex' and n == 2 and uses(tree, ('arcsin', 'arccos', 'arctan'))
         if inv_trig and rng.random() < 0.8:
@@ -156,14 +182,18 @@ def derivative_search(ctx, budget, honesty):
             if np.shape(info.error_estimate) != np.shape(val) or np.shape(info.final_step) != np.shape(val):
                 ctx.violation('error_estimate / final_step do not have one entry per entry of the result',
                               shapes=[list(np.shape(val)), list(np.shape(info.error_estimate)), list(np.shape(info.final_step))], **rep)
-            if not err <= K_EST * est + FLOOR[(m, n)] * S:
+            # the rounding floor: the calibrated share of the local scale, plus — for the real-step methods, whose quotients subtract
+            # nearly equal values — the resolution of a difference quotient at the step the result was read at, eps |f(x)| / h^n
+            hfin0 = abs(float(np.ravel(info.final_step)[pick]))
+            resolution = 10.0 * 2.0 ** -52 * abs(direct) / hfin0 ** n if (m in ('central', 'forward', 'backward') and hfin0 > 0) else 0.0
+            if not err <= K_EST * est + FLOOR[(m, n)] * S + resolution:
                 # recorded finding: f is under-resolved at the step the generator ends on (the next Taylor terms of f^(n) at that step
                 # are comparable with f^(n) itself), and the extrapolation of the short sequence does not see the truncation error
                 hfin = abs(float(np.ravel(info.final_step)[pick]))
                 ur = under_resolution(d, n, hfin)
                 sig2 = sig or ('C02-under-resolved-at-final-step' if ur > 0.25 else None)
                 ctx.violation('true error exceeds %g x error_estimate + rounding floor' % K_EST, got=v, error=err, error_estimate=est,
-                              floor=FLOOR[(m, n)] * S, final_step=hfin, under_resolution=ur, signature=sig2, **rep)
+                              floor=FLOOR[(m, n)] * S + resolution, final_step=hfin, under_resolution=ur, signature=sig2, **rep)
     if honesty:
         under_resolved_probe(ctx)
         stationary_single_estimate(ctx, max(20, budget // 8))
